@@ -18,6 +18,7 @@ import (
 	"runtime"
 	"sort"
 	"strconv"
+	"sync"
 	"strings"
 	"time"
 
@@ -172,16 +173,63 @@ func worker(prop, tier string, shard, nshard int, budget time.Duration) {
 	w := bufio.NewWriter(os.Stdout)
 	defer w.Flush()
 	enc := json.NewEncoder(w)
+	// non-termination watchdog: an execution that has been running for VERIF_HANG_S seconds of wall time (default 120)
+	// is code under test spinning without reaching a synchronisation operation; the goroutine cannot be stopped, so the
+	// scenario is reported and the worker ends (the remaining scenarios of this shard are reported as not explored)
+	var mu sync.Mutex
+	cur := -1
+	go func() {
+		limit := int64(120)
+		if v, err := strconv.Atoi(os.Getenv("VERIF_HANG_S")); err == nil && v > 0 {
+			limit = int64(v)
+		}
+		for {
+			time.Sleep(2 * time.Second)
+			t0 := vs.ExecRunningSince()
+			if t0 == 0 || time.Now().UnixNano()-t0 < limit*int64(time.Second) {
+				continue
+			}
+			mu.Lock()
+			sc := scs[cur]
+			buf := make([]byte, 1<<18)
+			buf = buf[:runtime.Stack(buf, true)]
+			site := "unknown"
+			for _, l := range strings.Split(string(buf), "\n") {
+				if strings.HasPrefix(l, "github.com/insomniacslk/dhcp/") && !strings.Contains(l, "/verifshim/") {
+					site = strings.TrimPrefix(l, "github.com/insomniacslk/dhcp/")
+					if i := strings.LastIndexByte(site, '('); i > 0 {
+						site = site[:i]
+					}
+					break
+				}
+			}
+			enc.Encode(shardResult{Scenario: sc.ID(), Family: sc.Family(), Desc: sc.Describe(), Executions: 1, Reproduced: 5,
+				Violation: fmt.Sprintf("L-hang: one execution has been running for more than %d s of wall time without ending; innermost frame of the code under test: %s || scenario: %s", limit, site, sc.Describe()), Rule: "L-hang"})
+			for j := cur + 1; j < len(scs); j++ {
+				if j%nshard == shard {
+					enc.Encode(shardResult{Scenario: scs[j].ID(), Family: scs[j].Family(), Capped: true, BoundDone: -1})
+				}
+			}
+			w.Flush()
+			os.Exit(0)
+		}
+	}()
 	for i, sc := range scs {
 		if i%nshard != shard {
 			continue
 		}
+		mu.Lock()
+		cur = i
+		mu.Unlock()
 		if time.Now().After(deadline) {
 			enc.Encode(shardResult{Scenario: sc.ID(), Family: sc.Family(), Capped: true, BoundDone: -1})
 			continue
 		}
-		enc.Encode(exploreOne(sc, deadline, true))
+		r := exploreOne(sc, deadline, true)
+		mu.Lock()
+		enc.Encode(r)
 		w.Flush()
+		mu.Unlock()
 	}
 }
 
